@@ -275,10 +275,38 @@ def _target_names(t):
 # ---------------------------------------------------------------------------
 # iteration over a Seq expression (result of a generator): push the body down to the leaves
 
+def _first_exit(I, node, st, seq):
+    """`for x in <Gen>: <body that always leaves the loop>`: runs at most one iteration."""
+    ctx = I.ctx
+    emp = seq_empty(seq)
+    outs = []
+    for s, nonempty in branch(ctx, st, [(z3.Not(emp), True), (emp, False)]):
+        if not nonempty:
+            outs.extend(I.exec_block(node.orelse, s) if node.orelse else [(s, ("next", None))])
+            continue
+        oid = ctx.new_oid()
+        s.heap[oid] = ErrVal(base=ErrElem(seq, first=True))
+        for s1, c1 in I.assign(node.target, ErrRef(oid), s):
+            for s2, ctl in I.exec_block(node.body, s1):
+                if ctl[0] in ("next", "continue"):
+                    return None
+                if ctl[0] == "break":
+                    outs.append((s2, ("next", None)))
+                else:
+                    if ctl[0] == "raise" and isinstance(ctl[1], ErrRef):
+                        ctl = ("raise", s2.heap[ctl[1].oid])
+                    outs.append((s2, ctl))
+    return outs
+
+
 def _over_seq(I, node, st, seq):
     """for x in <seq>: body  ==  seq with every leaf replaced by body's output for that leaf."""
     ctx = I.ctx
     list_deltas = {}
+    if isinstance(seq, Gen) and any(isinstance(n, (ast.Raise, ast.Return, ast.Break)) for n in ast.walk(ast.Module(body=node.body, type_ignores=[]))):
+        r = _first_exit(I, node, st, seq)
+        if r is not None:
+            return r
 
     def at_leaf(val, extra_pc, loopvars):
         s = st.fork()
